@@ -28,8 +28,10 @@ def canon_cell(x):
         t = pd.Timestamp(x)
         if t is pd.NaT:
             return MISSING
-        # ticks in the timestamp's own unit: far-away instants do not fit nanoseconds
-        return ("t", int(t.asm8.view("i8")), t.unit, str(t.tz) if t.tz is not None else None)
+        # the instant as an unbounded count of nanoseconds (the unit of a *column* is part of its dtype and compared
+        # there; the unit of a label inside a categorical or object column is inferred per handle and says nothing)
+        unit_ns = {"s": 10 ** 9, "ms": 10 ** 6, "us": 10 ** 3, "ns": 1}[t.unit]
+        return ("t", int(t.asm8.view("i8")) * unit_ns, str(t.tz) if t.tz is not None else None)
     if isinstance(x, (pd.Timedelta, np.timedelta64)):
         t = pd.Timedelta(x)
         return MISSING if t is pd.NaT else ("d", int(t.asm8.view("i8")), t.unit)
